@@ -337,6 +337,30 @@ Definition qstep (s : state) (q : qop) : state * out :=
 (* what synchronise() + syncWithPeer() do to the queue before a cycle from [o] *)
 Definition new_cycle (s : state) (o : N) : state := prepare o (reset_peers (reset s)).
 
+(* ---- fetchParts' bookkeeping of busy peers around the queue ----------------- *)
+(* second component: the peers whose blockIdle flag is 1 (a request was sent) *)
+Definition floop := (state * list N)%type.
+
+(* "request, progress, err := reserve(peer, capacity(peer))" is only tried for idle
+   peers; a request makes the peer busy (peerConnection.FetchBodies) *)
+Definition f_reserve (p count limit : N) (f : floop) : floop :=
+  if memN p (snd f) then f
+  else match reserve p count limit (fst f) with
+       | (s', (Some _, _, _)) => (s', p :: snd f)
+       | (s', _) => (s', snd f)
+       end.
+
+(* "accepted, err := deliver(packet); if err != errStaleDelivery { setIdle(peer, accepted) }" *)
+Definition f_deliver (p : N) (bs : list (list N)) (f : floop) : floop * N :=
+  match deliver p bs (fst f) with
+  | (s', (_, err)) => ((s', if err =? 4 then snd f else delN p (snd f)), err)
+  end.
+
+(* "for pid, fails := range expire() { ... }": the peer is idled (fails > 2) or dropped *)
+Definition f_expire (ps : list N) (f : floop) : floop :=
+  let (s', l) := expire ps (fst f) in
+  (s', fold_left (fun b kv => delN (fst kv) b) l (snd f)).
+
 End Model.
 
 (* ---- correspondence runner ---------------------------------------------- *)
